@@ -39,7 +39,7 @@ pub fn run(ctx: &mut Ctx) {
     let (mut is, names) = new_iset();
     let cache = sorted_cache(&is);
     let judge = Judge { frame: true, reference: true };
-    let nseq = ctx.n(4000, 120000);
+    let nseq = ctx.n(12000, 400000);
     let i = |n: &str| SItem::Instr(n.to_string());
     for k in 0..nseq as u64 {
         if !ctx.mine(k) {
@@ -183,6 +183,10 @@ pub fn run(ctx: &mut Ctx) {
         for kd in kinds.iter() {
             ctx.rec.cover(&format!("event|{}", kd));
         }
+        for w in kinds.windows(2) {
+            ctx.rec.cover(&format!("pair|{}|{}", w[0], w[1]));
+        }
+        ctx.rec.cover(&format!("program|{}", kinds.join(">")));
         if k % 600 == 0 {
             ctx.rec.sample("name-program", &format!("{} from {} => {}", SItem::List(prog), s.summary(), Snap::of(&st).summary()));
         }
